@@ -483,7 +483,16 @@ class Intervals:
             return
         if k in ("CallExpr", "CXXMemberCallExpr", "CXXOperatorCallExpr", "CXXConstructExpr"):
             # anything whose address is passed may be written
-            for a in (ks[1:] if k != "CXXConstructExpr" else ks):
+            callee_ = getattr(self.F, "_by_id", {}).get(n.get("calleeId")) if n.get("calleeId") else None
+            args_ = (ks[1:] if k != "CXXConstructExpr" else ks)
+            ptypes_ = {}
+            if callee_ is not None:
+                off_ = 1 if k == "CXXOperatorCallExpr" else 0          # the closure / object comes first
+                for ix_, p_ in enumerate(callee_.params):
+                    ptypes_[ix_ + off_] = (p_.get("ct") or p_.get("t") or "")
+            for ai_, a in enumerate(args_):
+                if ai_ in ptypes_ and not ptypes_[ai_].rstrip().endswith(("&", "*")):
+                    continue                                           # passed by value to a callee whose signature is known
                 for x in walk(a):
                     if x["k"] == "UnaryOperator" and x.get("op") == "&":
                         p = path_of(kids(x)[0])
